@@ -227,7 +227,7 @@ def gen_b(R):
     ops = []
     for _ in range(R.int(3, 14)):
         gap = R.choice([0.0, 0.0, 0.5, 3.0, 10.5, 19.5, 20.5, 31.0, 44.5, 45.5, 61.0])  # 0.0 = back-to-back, no yield in between
-        k = R.weighted([(6, "occ"), (2, "guard"), (1, "direct")])
+        k = R.weighted([(6, "occ"), (2, "guard"), (1, "direct"), (1, "watch")])
         # back-to-back only between occurrences: a guard entity changed in the same instant is read at
         # evaluation time by design (the documentation's "current value")
         if gap == 0.0 and (not ops or ops[-1][1] != "occ" or k != "occ"):
@@ -236,6 +236,10 @@ def gen_b(R):
             ops.append([gap, "occ", R.choice(["1", "2", "3"])])
         elif k == "guard":
             ops.append([gap, "guard", R.choice(["0", "1"])])
+        elif k == "watch":
+            # another function watches the guard entity for a while (task.wait_until with a time-out) and stops again: the
+            # guard must keep seeing the entity's current value afterwards
+            ops.append([gap, "watch", None])
         else:
             ops.append([gap, "direct", None])
     return {"part": "B", "legacy": R.bool(), "trig": trig, "guard": guard, "specs": specs, "hold_off": hold_off, "ops": ops,
@@ -261,7 +265,8 @@ def b_script(case):
         ta = f"@time_active({', '.join(args)})"
     decs = [sa, ta] if case["order"] == "sa-first" else [ta, sa]
     L += [d for d in decs if d]
-    L += ["def f(**kw):", "    vrec('run', kw.get('trigger_type'))", "", "@event_trigger('direct')", "def caller(**kw):", "    f()", ""]
+    L += ["def f(**kw):", "    vrec('run', kw.get('trigger_type'))", "", "@event_trigger('direct')", "def caller(**kw):", "    f()", "",
+          "@event_trigger('watch')", "def watcher(**kw):", "    task.wait_until(state_trigger=\"pyscript.g == 'never'\", timeout=1.2)", ""]
     return "\n".join(L)
 
 
@@ -298,6 +303,8 @@ async def exec_b(case):
                 it.set_state("pyscript.g", arg)
                 world["pyscript.g"] = arg
                 occs.append((t, {"guard_set": arg}))
+            elif op == "watch":
+                it.fire("watch", {})
             else:
                 it.fire("direct", {})
                 occs.append((t, {"direct": True}))
@@ -363,7 +370,7 @@ class C07(ModelCheck):
         "when end < start, crontab field matching; (any positive or none given) and no negative). (B) integration on "
         "the virtual clock: a state / time / event trigger with @state_active (incl. .old, unwatched and undefined "
         "names) and @time_active(specifications, hold_off=N) in either decorator order, occurrences at generated "
-        "times around window edges and N, a guard entity toggled in between, and direct calls through a second "
+        "times around window edges and N, a guard entity toggled in between (and watched for a while by another function's task.wait_until), and direct calls through a second "
         "function; oracle: an occurrence runs iff guard expression true on the triggering values and time in window "
         "and >= N s since the last accepted occurrence; direct calls always run; both subsystems. Non-trivial = (A) a "
         "positive and a negative specification or an evaluation within 1 us of an end point, (B) an occurrence inside "
